@@ -5,7 +5,7 @@
 import os, sys
 sys.path.insert(0, os.path.join(os.environ.get("AIOFTP_REPO", "/repo"), "src"))
 OBLIGATION = 'aioftp.server:Server.stor#SEQ::PathPermissions.__call__.<locals>.wrapper/call:Server.get_paths/pre:user-and-cwd-set'
-MODEL = {'block_size!0': 1, 'logged_done!14': False, 'restart_offset!10': 0, 'u_cur_home!41': 'Empty(Seq(String))', 'current_directory_done!16': True, 'current_directory_present!15': True, 'user_done!12': False, 'cwd!42': 'Empty(Seq(String))', 'logged_present!13': True, 'passive_server_present!19': True}
+MODEL = {'u_cur_home!176': 'Empty(Seq(String))', 'restart_offset!10': 0, 'cwd!177': 'Empty(Seq(String))', 'block_size!0': 1, 'current_directory_done!16': True, 'logged_done!14': False, 'current_directory_present!15': True, 'user_present!11': False, 'logged_present!13': True, 'passive_server_present!19': True}
 SOLVER_NOTE = ''
 
 print("obligation", OBLIGATION, "failed; no concrete failing input could be constructed automatically")
